@@ -13,7 +13,8 @@ def run(c, replay):
     ctx = C.setup(c, "C10")
     if not ctx:
         return
-    c.assumptions += ["valid models only: every output strictly after its cause in the event order, event types < 65534",
+    c.assumptions += ["valid models only: no output before its cause in the event order (three quarters of the programs: strictly after; one quarter: "
+                      "zero-delay relays whose content ties with the event in flight), event types < 65534",
                       "termination time test of serial.c is gated by a wall-clock timer: runs use period 0 (test at every event) or no termination time",
                       "tie between serial.c and the reference executor is differential (dispatch logs), not a mechanised refinement"]
     n = 25 if c.tier == "quick" else 300
@@ -25,9 +26,11 @@ def run(c, replay):
     import glob
     for f in sorted(glob.glob(os.path.join(V.VERIF, "corpus", "C10_*.txt"))):
         progs.append((os.path.basename(f)[:-4], open(f).read(), 0))
-    nontriv, ndisp, stats = 0, 0, dict(ties=0, zero_ts=0, tend=0, init_true=0)
+    nontriv, ndisp, stats = 0, 0, dict(ties=0, zero_ts=0, tend=0, init_true=0, relay=0, content_ties=0)
     for k in range(n):
-        p = progen.gen_program(r, heavy_mem=(k % 7 == 0), zero_ts=(k % 3 == 0))
+        p = progen.gen_program(r, heavy_mem=(k % 7 == 0), zero_ts=(k % 3 == 0), relay=(k % 4 == 1))
+        if "relay_type" in p:
+            stats["relay"] += 1
         tend = 0
         if k % 5 == 4:
             tend = r.range(3, 40)
@@ -65,6 +68,8 @@ def run(c, replay):
                 break
             if prev is not None and key[0] == prev[0]:
                 stats["ties"] += 1
+            if prev is not None and key == prev:
+                stats["content_ties"] += 1
             if key[0] == 0:
                 stats["zero_ts"] += 1
             prev = key
@@ -81,29 +86,23 @@ def run(c, replay):
         last_tick = int(D[-1].split()[2]) if D else 0
         last_tick_m = int(q.log[-1].split()[2]) if q.log else 0
         mism = None
-        if tend:
-            # with a termination time the serial run stops at the first event at or beyond it: compare the prefix below it
-            lim = tend
-            for lp in set(A) | set(B):
-                a = [x for x in A.get(lp, []) if int(x[0]) < lim]
-                b = [x for x in B.get(lp, []) if int(x[0]) < lim]
-                m = min(len(a), len(b))
-                if a[:m] != b[:m] or (len(a) != len(b) and res.final == q.final):
-                    mism = "LP %d: dispatch sequences below the termination time differ" % lp
-                    break
-                if len(a) < len(b) and any(int(x[0]) < lim for x in b[m:]) and False:
-                    mism = "LP %d" % lp
-        else:
-            for lp in set(A) | set(B):
-                a, b = A.get(lp, []), B.get(lp, [])
-                m = min(len(a), len(b))
-                if a[:m] != b[:m]:
-                    mism = "LP %d: dispatch sequences differ at position %d" % (lp, next(i for i in range(m) if a[i] != b[i]))
-                    break
-                extra = a[m:] + b[m:]
-                if extra and (last_tick != last_tick_m or any(int(x[0]) != last_tick for x in extra)):
-                    mism = "LP %d: one run delivered %d events the other never did (stopping point differs beyond the final tie group)" % (lp, len(extra))
-                    break
+        # with a termination time the serial run stops at the first event at or beyond it: compare what lies below it.
+        # Two executors may stop inside the same group of content-tied events after different members of the group
+        # (the order among events of equal content addressed to different LPs is not determined by the runtime's order):
+        # events delivered by one run only are accepted only in that final group.
+        lim = tend if tend else None
+        for lp in sorted(set(A) | set(B)):
+            a = [x for x in A.get(lp, []) if lim is None or int(x[0]) < lim]
+            b = [x for x in B.get(lp, []) if lim is None or int(x[0]) < lim]
+            m = min(len(a), len(b))
+            if a[:m] != b[:m]:
+                mism = "LP %d: dispatch sequences differ at position %d" % (lp, next(i for i in range(m) if a[i] != b[i]))
+                break
+            extra = a[m:] + b[m:]
+            if extra and (last_tick != last_tick_m or any(int(x[0]) != last_tick for x in extra)):
+                mism = "LP %d: one run delivered %d events the other never did (stopping point differs beyond the final tie group)" % (lp, len(extra))
+                break
+        if not tend:
             if not mism and res.final != q.final:
                 mism = "final LP states differ"
         if mism:
